@@ -1,11 +1,11 @@
-(* C01 for the fragment of stages 1-3: the induction on the evaluator's fuel,
-   and the statement about whole programs (compile_prog, initial state,
-   run to End). *)
+(* C01 for every construct of the core language (stages 1-4): the induction on
+   the evaluator's fuel, the nested bodies of a compiled program, and the
+   statement about whole programs (compile_prog, initial state, run to End). *)
 From Coq Require Import ZArith NArith List Bool Arith Lia.
 From GV Require Import Base.Result Base.Host Gen.Instr Gen.Exec Model.Num Model.Value Model.Machine
   Model.CompileExpr Spec.Ast Spec.Eval
-  Proofs.C01.MachineFacts Proofs.C01.Sizes Proofs.C01.Placement Proofs.C01.OpRefine Proofs.C01.Fragment
-  Proofs.C01.Steps Proofs.C01.Sim Proofs.C01.SimStep.
+  Proofs.C01.MachineFacts Proofs.C01.Sizes Proofs.C01.Placement Proofs.C01.Labels Proofs.C01.OpRefine Proofs.C01.Fragment
+  Proofs.C01.Steps Proofs.C01.Sim Proofs.C01.NoRestart Proofs.C01.SimDone Proofs.C01.SimStep.
 Import ListNotations.
 
 Section Main.
@@ -14,109 +14,206 @@ Variable hstate : Type.
 Variable host : hstate -> host_call -> hstate * option val.
 Hypothesis Hdef : declines_defer hstate host.
 Variable pbodies : list (N * expr).
+Variable P : program.
+Hypothesis Hbodies : bodies_ok sym_hash pbodies P.
 
-Notation St := (mkSt hstate).
-Notation est := (st hstate).
-
-Lemma sim_all : forall (P : program) n m, m <= n -> SimAll sym_hash hstate host pbodies P m.
+Lemma sim_all : forall n m, m <= n -> SimAll sym_hash hstate host pbodies P m.
 Proof.
-  intros P. induction n; intros m Hm.
+  induction n; intros m Hm.
   - assert (m = 0) by lia. subst m. repeat split.
-    + intros e vin s v s' H. discriminate.
-    + intros k e vin s items s' H. discriminate.
-    + intros e vin s o s' H. discriminate.
+    + intros e vin s o E. cbn in E. subst o. intros; exact I.
+    + intros k e vin s o E. cbn in E. subst o. intros; exact I.
+    + intros e vin s o E. cbn in E. subst o. intros; exact I.
+    + intros f x s v s' E. discriminate.
+    + intros b vin s v s' E. discriminate.
   - destruct (Nat.eq_dec m (S n)) as [-> | Hne].
-    + repeat split.
-      * apply sim_eval_step; auto.
-      * apply sim_items_step; auto.
-      * apply sim_chain_step; auto.
+    + apply (sim_all_step sym_hash hstate host Hdef pbodies P Hbodies n). exact IHn.
     + apply IHn. lia.
-Qed.
-
-Lemma sim_eval : forall P n, SimEval sym_hash hstate host pbodies P n.
-Proof. intros P n. apply (sim_all P n n (le_n n)). Qed.
-
-(* ------------------------------------------------ no `^~` in the fragment *)
-Notation eval := (eval sym_hash hstate host pbodies).
-Notation eval_items := (eval_items sym_hash hstate host pbodies).
-Notation eval_chain := (eval_chain sym_hash hstate host pbodies).
-
-Lemma obind_restart : forall (A B : Type) (o : out est A) (k : A -> est -> out est B) v s',
-  obind o k = ORestart v s' ->
-  o = ORestart v s' \/ exists a s1, o = ODone a s1 /\ k a s1 = ORestart v s'.
-Proof. intros A B o k v s' H. destruct o; cbn in H; try discriminate; [right; eauto | left; injection H as -> ->; reflexivity]. Qed.
-
-Definition NoRestart (n : nat) : Prop :=
-  (forall e vin (s : est) v s', frag e = true -> eval n e vin s <> ORestart v s') /\
-  (forall k e vin (s : est) v s', frag e = true -> eval_items n k e vin s <> ORestart v s') /\
-  (forall e vin (s : est) v s', frag e = true -> eval_chain n e vin s <> ORestart v s').
-
-Ltac nr IH1 IH2 IH3 :=
-  repeat match goal with
-  | H : obind ?o ?k = ORestart _ _ |- _ =>
-      apply obind_restart in H; destruct H as [H | (? & ? & ? & H)];
-      [ solve [ eapply IH1; [|exact H]; assumption | eapply IH2; [|exact H]; assumption | eapply IH3; [|exact H]; assumption ] | ]
-  | H : (if ?c then _ else _) = ORestart _ _ |- _ => destruct c
-  | H : ODone _ _ = ORestart _ _ |- _ => discriminate
-  | H : OUnspec _ = ORestart _ _ |- _ => discriminate
-  | H : lift _ _ _ = ORestart _ _ |- _ => unfold lift in H
-  | H : match ?x with _ => _ end = ORestart _ _ |- _ => destruct x eqn:?
-  end.
-
-Lemma frag_and : forall a b, a && b = true -> a = true /\ b = true.
-Proof. intros. apply andb_prop; auto. Qed.
-
-Lemma no_restart : forall n, NoRestart n.
-Proof.
-  induction n.
-  - repeat split; unfold not; intros; match goal with H : _ = ORestart _ _ |- _ => cbn in H; discriminate end.
-  - destruct IHn as (IH1 & IH2 & IH3). repeat split.
-    + intros e vin s v s' Hf H. destruct e; cbn [frag] in Hf; try discriminate;
-        try (apply frag_and in Hf; destruct Hf as [Hf1 Hf2]); try (apply frag_and in Hf1; destruct Hf1 as [Hf0 Hf1]).
-      * cbn [Eval.eval] in H. unfold resolve_ident in H.
-        destruct (by_symbol vin (sym_hash name)); try discriminate.
-        destruct (call_host hstate host (HResolve (sym_hash name)) s). discriminate.
-      * destruct o; try discriminate; cbn [Eval.eval] in H; nr IH1 IH2 IH3.
-      * destruct o; try discriminate; cbn [Eval.eval] in H; nr IH1 IH2 IH3.
-      * cbn [Eval.eval] in H; nr IH1 IH2 IH3.
-      * cbn [Eval.eval] in H; nr IH1 IH2 IH3.
-      * cbn [Eval.eval] in H. apply obind_restart in H. destruct H as [H | (? & ? & ? & H)]; [|discriminate].
-        eapply IH2; [|exact H]. cbn [frag]. rewrite Hf1, Hf2. reflexivity.
-      * cbn [Eval.eval] in H. eapply IH1; eauto.
-      * cbn [Eval.eval] in H; nr IH1 IH2 IH3; eapply IH1; eauto.
-      * cbn [Eval.eval] in H. apply obind_restart in H. destruct H as [H | (? & ? & ? & H)].
-        -- eapply IH3; [|exact H]. cbn [frag]. rewrite Hf1, Hf2. reflexivity.
-        -- destruct x; discriminate.
-      * cbn [Eval.eval] in H; nr IH1 IH2 IH3; eapply IH1; eauto.
-      * cbn [Eval.eval] in H; nr IH1 IH2 IH3.
-    + intros k e vin s v s' Hf H.
-      assert (Hgen : forall (o : out est val), o = eval n e vin s ->
-                obind o (fun v0 s1 => ODone [v0] s1) = ORestart v s' -> False).
-      { intros o -> H2. apply obind_restart in H2. destruct H2 as [H2 | (? & ? & ? & H2)]; [|discriminate].
-        eapply IH1; eauto. }
-      destruct e; cbn [Eval.eval_items] in H; try (eapply Hgen; [reflexivity | exact H]).
-      cbn [frag] in Hf. apply frag_and in Hf. destruct Hf as [Hf1 Hf2].
-      destruct (match k with Space => match k0 with Space => true | Comma => false end
-                | Comma => match k0 with Space => false | Comma => true end end).
-      * apply obind_restart in H. destruct H as [H | (? & ? & ? & H)].
-        -- destruct (is_list_of k e1).
-           ++ eapply IH2; [|exact H]; assumption.
-           ++ nr IH1 IH2 IH3.
-        -- nr IH1 IH2 IH3.
-      * eapply Hgen; [reflexivity | exact H].
-    + intros e vin s v s' Hf H.
-      assert (Hgen : forall (o : out est val), o = eval n e vin s ->
-                obind o (fun v0 s1 => ODone (Some v0) s1) = ORestart v s' -> False).
-      { intros o -> H2. apply obind_restart in H2. destruct H2 as [H2 | (? & ? & ? & H2)]; [|discriminate].
-        eapply IH1; eauto. }
-      destruct e; cbn [Eval.eval_chain] in H; try (eapply Hgen; [reflexivity | exact H]);
-        cbn [frag] in Hf; apply frag_and in Hf; destruct Hf as [Hf1 Hf2].
-      * nr IH1 IH2 IH3.
-      * nr IH1 IH2 IH3. eapply IH3; eauto.
 Qed.
 
 End Main.
 
+(* ------------------------------------------- the nested bodies of a program *)
+Section Bodies.
+Variable sym_hash : list N -> N.
+Variable C : list minstr.
+Variable J : list nat.
+Notation lplaced := (lplaced sym_hash C J).
+Notation lplacedC := (lplacedC sym_hash C J).
+
+Definition body_in (lbl : N) (b : expr) : Prop :=
+  exists pcb jb1 ob1 jb2,
+    nth_error J (N.to_nat lbl) = Some pcb /\
+    lplaced (N.to_nat lbl) None b pcb jb1 ob1 jb2 /\
+    nth_error C (pcb + si (sizes None b)) = Some (ins I_EndExpression) /\
+    frag b = true /\ shape_ok b = true /\ seq_ok true b = true.
+
+Lemma shape_plain_item : forall e, is_cond e = false -> is_else e = false -> shape_okC true e = shape_okC false e.
+Proof. destruct e; intros; cbn [shape_okC]; auto; discriminate. Qed.
+
+Ltac and2 H a b := apply andb_prop in H; destruct H as [a b].
+Ltac and3 H a b c := apply andb_prop in H; destruct H as [H c]; apply andb_prop in H; destruct H as [a b].
+Ltac and4 H a b c d := apply andb_prop in H; destruct H as [H d]; and3 H a b c.
+
+Lemma lchain_items : forall e, lchain e = true -> is_cond e = true \/ is_else e = true.
+Proof. destruct e; cbn; intros; auto; discriminate. Qed.
+
+(* every nested body of an expression placed in the program is in the program *)
+Lemma placed_bodies : forall e,
+  (forall cont lk pc j ob jb sb,
+     lplaced cont lk e pc j ob jb -> frag e = true -> shape_ok e = true -> seq_ok sb e = true ->
+     forall lbl b, In (lbl, b) (bodies e) -> body_in lbl b) /\
+  (forall cont pc j aob ajb ob jb jj,
+     lplacedC true cont None e pc j aob ajb ob jb jj -> frag e = true -> shape_okC true e = true -> seq_ok false e = true ->
+     forall lbl b, In (lbl, b) (bodies e) -> body_in lbl b).
+Proof.
+  induction e.
+  1-3: split; intros; cbn in *; contradiction.
+  - (* EUn *) destruct IHe as [IH1 _].
+    assert (Hplain : forall cont lk pc j ob jb sb,
+       lplaced cont lk (EUn o e) pc j ob jb -> frag (EUn o e) = true -> shape_ok (EUn o e) = true -> seq_ok sb (EUn o e) = true ->
+       forall lbl b, In (lbl, b) (bodies (EUn o e)) -> body_in lbl b).
+    { intros cont lk pc j ob jb sb Hp Hf Hsh Hsq lbl b Hin. cbn [frag shape_okC seq_ok bodies] in *.
+      edestruct (lplaced_EUn sym_hash C J) as (Px & _); [exact Hp | ]. eapply IH1; eauto. }
+    split; [exact Hplain|].
+    intros cont pc j aob ajb ob jb jj Hp Hf Hsh Hsq lbl b Hin.
+    eapply (Hplain cont None pc j ob jb false); eauto.
+    eapply lplacedC_plain_item; eauto.
+  - (* EBin *) destruct IHe1 as [IHl _]. destruct IHe2 as [IHr _].
+    assert (Hplain : forall cont lk pc j ob jb sb,
+       lplaced cont lk (EBin o e1 e2) pc j ob jb -> frag (EBin o e1 e2) = true -> shape_ok (EBin o e1 e2) = true -> seq_ok sb (EBin o e1 e2) = true ->
+       forall lbl b, In (lbl, b) (bodies (EBin o e1 e2)) -> body_in lbl b).
+    { intros cont lk pc j ob jb sb Hp Hf Hsh Hsq lbl b Hin. cbn [frag shape_okC seq_ok bodies] in *.
+      and2 Hf Hfl Hfr. and2 Hsh Hshl Hshr. and2 Hsq Hsql Hsqr. apply in_app_or in Hin.
+      destruct (right_first o) eqn:Hrf.
+      - edestruct (lplaced_EBin_rl sym_hash C J) as (Pr & Pl & _); [exact Hrf | exact Hp | ].
+        destruct Hin; [eapply IHl | eapply IHr]; eauto.
+      - edestruct (lplaced_EBin_lr sym_hash C J) as (Pl & Pr & _); [exact Hrf | exact Hp | ].
+        destruct Hin; [eapply IHl | eapply IHr]; eauto. }
+    split; [exact Hplain|].
+    intros cont pc j aob ajb ob jb jj Hp Hf Hsh Hsq lbl b Hin.
+    eapply (Hplain cont None pc j ob jb false); eauto. eapply lplacedC_plain_item; eauto.
+  - (* EAnd *) destruct IHe1 as [IHl _]. destruct IHe2 as [IHr _].
+    assert (Hplain : forall cont lk pc j ob jb sb,
+       lplaced cont lk (EAnd e1 e2) pc j ob jb -> frag (EAnd e1 e2) = true -> shape_ok (EAnd e1 e2) = true -> seq_ok sb (EAnd e1 e2) = true ->
+       forall lbl b, In (lbl, b) (bodies (EAnd e1 e2)) -> body_in lbl b).
+    { intros cont lk pc j ob jb sb Hp Hf Hsh Hsq lbl b Hin. cbn [frag shape_okC seq_ok bodies] in *.
+      and2 Hf Hfl Hfr. and2 Hsh Hshl Hshr. and2 Hsq Hsql Hsqr. apply in_app_or in Hin.
+      edestruct (lplaced_logical sym_hash C J true) as (Pl & Pr & _); [exact Hp | ].
+      destruct Hin; [eapply IHl | eapply IHr]; eauto. }
+    split; [exact Hplain|].
+    intros cont pc j aob ajb ob jb jj Hp Hf Hsh Hsq lbl b Hin.
+    eapply (Hplain cont None pc j ob jb false); eauto. eapply lplacedC_plain_item; eauto.
+  - (* EOr *) destruct IHe1 as [IHl _]. destruct IHe2 as [IHr _].
+    assert (Hplain : forall cont lk pc j ob jb sb,
+       lplaced cont lk (EOr e1 e2) pc j ob jb -> frag (EOr e1 e2) = true -> shape_ok (EOr e1 e2) = true -> seq_ok sb (EOr e1 e2) = true ->
+       forall lbl b, In (lbl, b) (bodies (EOr e1 e2)) -> body_in lbl b).
+    { intros cont lk pc j ob jb sb Hp Hf Hsh Hsq lbl b Hin. cbn [frag shape_okC seq_ok bodies] in *.
+      and2 Hf Hfl Hfr. and2 Hsh Hshl Hshr. and2 Hsq Hsql Hsqr. apply in_app_or in Hin.
+      edestruct (lplaced_logical sym_hash C J false) as (Pl & Pr & _); [exact Hp | ].
+      destruct Hin; [eapply IHl | eapply IHr]; eauto. }
+    split; [exact Hplain|].
+    intros cont pc j aob ajb ob jb jj Hp Hf Hsh Hsq lbl b Hin.
+    eapply (Hplain cont None pc j ob jb false); eauto. eapply lplacedC_plain_item; eauto.
+  - (* EList *) destruct IHe1 as [IHl _]. destruct IHe2 as [IHr _].
+    assert (Hplain : forall cont lk pc j ob jb sb,
+       lplaced cont lk (EList k e1 e2) pc j ob jb -> frag (EList k e1 e2) = true -> shape_ok (EList k e1 e2) = true -> seq_ok sb (EList k e1 e2) = true ->
+       forall lbl b, In (lbl, b) (bodies (EList k e1 e2)) -> body_in lbl b).
+    { intros cont lk pc j ob jb sb Hp Hf Hsh Hsq lbl b Hin. cbn [frag shape_okC seq_ok bodies] in *.
+      and2 Hf Hfl Hfr. and3 Hsh Hnl Hshl Hshr. and2 Hsq Hsql Hsqr. apply in_app_or in Hin.
+      edestruct (lplaced_EList sym_hash C J) as (Pl & Pr & _); [exact Hp | ].
+      destruct Hin; [eapply IHl | eapply IHr]; eauto. }
+    split; [exact Hplain|].
+    intros cont pc j aob ajb ob jb jj Hp Hf Hsh Hsq lbl b Hin.
+    eapply (Hplain cont None pc j ob jb false); eauto. eapply lplacedC_plain_item; eauto.
+  - (* EGroup *) destruct IHe as [IH1 _].
+    assert (Hplain : forall cont lk pc j ob jb sb,
+       lplaced cont lk (EGroup e) pc j ob jb -> frag (EGroup e) = true -> shape_ok (EGroup e) = true -> seq_ok sb (EGroup e) = true ->
+       forall lbl b, In (lbl, b) (bodies (EGroup e)) -> body_in lbl b).
+    { intros cont lk pc j ob jb sb Hp Hf Hsh Hsq lbl b Hin. cbn [frag shape_okC seq_ok bodies] in *.
+      pose proof (lplaced_EGroup sym_hash C J _ _ _ _ _ _ _ Hp) as Px. eapply IH1; eauto. }
+    split; [exact Hplain|].
+    intros cont pc j aob ajb ob jb jj Hp Hf Hsh Hsq lbl b Hin.
+    eapply (Hplain cont None pc j ob jb false); eauto. eapply lplacedC_plain_item; eauto.
+  - (* ECond *) destruct IHe1 as [IHc _]. destruct IHe2 as [IHa _]. split.
+    + intros cont lk pc j ob jb sb Hp Hf Hsh Hsq lbl b Hin. cbn [frag shape_okC seq_ok bodies] in *.
+      and2 Hf Hfl Hfr. and2 Hsh Hshl Hshr. and2 Hsq Hsql Hsqr. apply in_app_or in Hin.
+      edestruct (lplaced_ECond sym_hash C J) as (Pc & Pa & _); [exact Hp | ].
+      destruct Hin; [eapply IHc | eapply IHa]; eauto.
+    + intros cont pc j aob ajb ob jb jj Hp Hf Hsh Hsq lbl b Hin. cbn [frag shape_okC seq_ok bodies] in *.
+      and2 Hf Hfl Hfr. and2 Hsh Hshl Hshr. and2 Hsq Hsql Hsqr. apply in_app_or in Hin.
+      edestruct (lplacedC_ECond sym_hash C J) as (Pc & Pa & _); [exact Hp | ].
+      destruct Hin; [eapply IHc | eapply IHa]; eauto.
+  - (* EElse *) destruct IHe1 as [IHl1 IHl2]. destruct IHe2 as [IHr1 IHr2]. split.
+    + intros cont lk pc j ob jb sb Hp Hf Hsh Hsq lbl b Hin. cbn [frag shape_okC seq_ok bodies] in *.
+      and2 Hf Hfl Hfr. and4 Hsh Hll Hpr Hshl Hshr. and2 Hsq Hsql Hsqr. apply in_app_or in Hin.
+      edestruct (lplaced_EElse_head sym_hash C J) as (Pl & Pr & _); [exact Hp | ].
+      unfold plain in Hpr. apply andb_prop in Hpr. destruct Hpr as [A B].
+      apply negb_true_iff in A. apply negb_true_iff in B.
+      destruct Hin.
+      * eapply IHl2; eauto.
+      * eapply (IHr1 cont None _ _ _ _ false); eauto. eapply lplacedC_plain_item; eauto.
+    + intros cont pc j aob ajb ob jb jj Hp Hf Hsh Hsq lbl b Hin. cbn [frag shape_okC seq_ok bodies] in *.
+      and2 Hf Hfl Hfr. and2 Hsh Hshl Hshr. and2 Hsq Hsql Hsqr. apply in_app_or in Hin.
+      edestruct (lplacedC_EElse sym_hash C J) as (Pl & Pr); [exact Hp | ].
+      destruct Hin; [eapply IHl2 | eapply IHr2]; eauto.
+  - (* ESeq *) destruct IHe1 as [IHl _]. destruct IHe2 as [IHr _].
+    assert (Hplain : forall cont lk pc j ob jb sb,
+       lplaced cont lk (ESeq s e1 e2) pc j ob jb -> frag (ESeq s e1 e2) = true -> shape_ok (ESeq s e1 e2) = true -> seq_ok sb (ESeq s e1 e2) = true ->
+       forall lbl b, In (lbl, b) (bodies (ESeq s e1 e2)) -> body_in lbl b).
+    { intros cont lk pc j ob jb sb Hp Hf Hsh Hsq lbl b Hin. cbn [frag shape_okC seq_ok bodies] in *.
+      and2 Hf Hfl Hfr. and2 Hsh Hshl Hshr. and3 Hsq Hb Hsql Hsqr. apply in_app_or in Hin.
+      edestruct (lplaced_ESeq sym_hash C J) as (Pl & Pr & _); [exact Hp | ].
+      destruct Hin; [eapply IHl | eapply IHr]; eauto. }
+    split; [exact Hplain|].
+    intros cont pc j aob ajb ob jb jj Hp Hf Hsh Hsq lbl b Hin. cbn [seq_ok] in Hsq. discriminate.
+  - (* ESide *) destruct IHe1 as [IHl _]. destruct IHe2 as [IHr _].
+    assert (Hplain : forall cont lk pc j ob jb sb,
+       lplaced cont lk (ESide e1 e2) pc j ob jb -> frag (ESide e1 e2) = true -> shape_ok (ESide e1 e2) = true -> seq_ok sb (ESide e1 e2) = true ->
+       forall lbl b, In (lbl, b) (bodies (ESide e1 e2)) -> body_in lbl b).
+    { intros cont lk pc j ob jb sb Hp Hf Hsh Hsq lbl b Hin. cbn [frag shape_okC seq_ok bodies] in *.
+      and3 Hf Hfl Hfr Hnr. and2 Hsh Hshl Hshr. and2 Hsq Hsql Hsqr. apply in_app_or in Hin.
+      edestruct (lplaced_ESide sym_hash C J) as (Pl & Pr & _); [exact Hp | ].
+      destruct Hin; [eapply IHl | eapply IHr]; eauto. }
+    split; [exact Hplain|].
+    intros cont pc j aob ajb ob jb jj Hp Hf Hsh Hsq lbl b Hin.
+    eapply (Hplain cont None pc j ob jb false); eauto. eapply lplacedC_plain_item; eauto.
+  - (* ENested *) destruct IHe as [IH1 _].
+    assert (Hplain : forall cont lk pc j ob jb sb,
+       lplaced cont lk (ENested label e) pc j ob jb -> frag (ENested label e) = true -> shape_ok (ENested label e) = true -> seq_ok sb (ENested label e) = true ->
+       forall lbl b, In (lbl, b) (bodies (ENested label e)) -> body_in lbl b).
+    { intros cont lk pc j ob jb sb Hp Hf Hsh Hsq lbl b Hin. cbn [frag shape_okC seq_ok bodies] in *.
+      edestruct (lplaced_ENested sym_hash C J) as (Hlbl & _ & Hj & Pb & Hend); [exact Hp | ].
+      destruct Hin as [Heq | Hin].
+      - injection Heq as <- <-. subst label. unfold body_in. rewrite Nat2N.id.
+        exists ob, jb, (ob + si (sizes None e) + 1), (jb + sji (sizes None e)).
+        split; [exact Hj | split; [exact Pb | split; [exact Hend | auto]]].
+      - eapply IH1; eauto. }
+    split; [exact Hplain|].
+    intros cont pc j aob ajb ob jb jj Hp Hf Hsh Hsq lbl b Hin.
+    eapply (Hplain cont None pc j ob jb false); eauto. eapply lplacedC_plain_item; eauto.
+  - (* EReapply *) destruct IHe as [IH1 _].
+    assert (Hplain : forall cont lk pc j ob jb sb,
+       lplaced cont lk (EReapply e) pc j ob jb -> frag (EReapply e) = true -> shape_ok (EReapply e) = true -> seq_ok sb (EReapply e) = true ->
+       forall lbl b, In (lbl, b) (bodies (EReapply e)) -> body_in lbl b).
+    { intros cont lk pc j ob jb sb Hp Hf Hsh Hsq lbl b Hin. cbn [frag shape_okC seq_ok bodies] in *.
+      edestruct (lplaced_EReapply sym_hash C J) as (Px & _); [exact Hp | ]. eapply IH1; eauto. }
+    split; [exact Hplain|].
+    intros cont pc j aob ajb ob jb jj Hp Hf Hsh Hsq lbl b Hin.
+    eapply (Hplain cont None pc j ob jb false); eauto. eapply lplacedC_plain_item; eauto.
+Qed.
+
+Lemma find_body_in : forall l lbl b, find_body l lbl = Some b -> exists k, N.eqb k lbl = true /\ In (k, b) l.
+Proof.
+  induction l as [|[k0 b0] l IH]; intros lbl b H; [discriminate|].
+  cbn in H. destruct (N.eqb k0 lbl) eqn:E.
+  - injection H as <-. exists k0. split; auto. left; reflexivity.
+  - destruct (IH _ _ H) as (k & Hk & Hin). exists k. split; auto. right; exact Hin.
+Qed.
+
+End Bodies.
+
+(* ---------------------------------------------------------- whole programs *)
 Section Programs.
 Variable sym_hash : list N -> N.
 Variable hstate : Type.
@@ -124,18 +221,9 @@ Variable host : hstate -> host_call -> hstate * option val.
 Hypothesis Hdef : declines_defer hstate host.
 Notation St := (mkSt hstate).
 
-Lemma run_body_S : forall pb n b vin (s : st hstate),
-  run_body sym_hash hstate host pb (S n) b vin s =
-  match Eval.eval sym_hash hstate host pb n b vin s with
-  | ORestart v s' => run_body sym_hash hstate host pb n b v s'
-  | o => o
-  end.
-Proof. reflexivity. Qed.
+(* the labels of the nested expressions are the jump-table indices of their bodies *)
+Definition labels_ok (e : expr) : bool := lab_okC false None e 1 0 (1 + sji (sizes None e)).
 
-Definition sim_eval_gen := sim_eval sym_hash hstate host Hdef.
-Definition no_restart_gen := no_restart sym_hash hstate host.
-
-(* ---------------------------------------------------------- whole programs *)
 Lemma compile_placed : forall e,
   let P := compile_prog sym_hash e in
   Placement.placed sym_hash (code P) (jt P) 0 None e 0 1 (si (sizes None e) + 1) (1 + sji (sizes None e)) /\
@@ -162,8 +250,62 @@ Proof.
   - reflexivity.
 Qed.
 
+Lemma compile_bodies_ok : forall e,
+  frag e = true -> shape_ok e = true -> seq_ok true e = true -> labels_ok e = true ->
+  bodies_ok sym_hash (bodies e) (compile_prog sym_hash e).
+Proof.
+  intros e Hf Hsh Hsq Hlab lbl b Hfb.
+  destruct (find_body_in _ _ _ Hfb) as (k & Hk & Hin). apply N.eqb_eq in Hk. subst k.
+  destruct (compile_placed e) as (Hp & _).
+  assert (Hlp : lplaced sym_hash (code (compile_prog sym_hash e)) (jt (compile_prog sym_hash e)) 0 None e 0 1
+                        (si (sizes None e) + 1) (1 + sji (sizes None e))) by (split; [exact Hp | exact Hlab]).
+  destruct (placed_bodies sym_hash (code (compile_prog sym_hash e)) (jt (compile_prog sym_hash e)) e) as [PB _].
+  exact (PB 0 None 0 1 _ _ true Hlp Hf Hsh Hsq lbl b Hin).
+Qed.
+
+Theorem stage4_program : forall e vin h n v h' t,
+  frag e = true -> shape_ok e = true -> seq_ok true e = true -> labels_ok e = true ->
+  eval_prog sym_hash hstate host n e vin h = ODone v (h', t) ->
+  exists s0 fuel steps sfin,
+    initial hstate (compile_prog sym_hash e) 0 vin h = Some s0 /\
+    run hstate host fuel (compile_prog sym_hash e) s0 = REnd hstate sfin steps /\
+    current_value hstate sfin = Some v /\ hs sfin = h' /\ observable (tr sfin) = t.
+Proof.
+  intros e vin h n v h' t Hf Hsh Hsq Hlab H.
+  unfold eval_prog in H.
+  pose proof (compile_bodies_ok e Hf Hsh Hsq Hlab) as Hb.
+  destruct (compile_placed e) as (Hp & Hend & Hj0).
+  set (P := compile_prog sym_hash e) in *.
+  assert (Hlp : lplaced sym_hash (code P) (jt P) 0 None e 0 1 (si (sizes None e) + 1) (1 + sji (sizes None e)))
+    by (split; [exact Hp | exact Hlab]).
+  assert (Hl : 0 + si (sizes None e) < length (code P)) by (apply nth_error_Some; cbn [plus]; congruence).
+  destruct (sim_all sym_hash hstate host Hdef (bodies e) P Hb n n (le_n n)) as (_ & _ & _ & _ & HB).
+  destruct (HB e vin (h, []) v (h', t) H Hf Hsh Hsq 0 0 1 _ _ [] [] [] [] Hlp Hj0 Hl eq_refl)
+    as (junk & vin' & mt' & Hstar & Ho).
+  cbn [fst snd plus] in *. rewrite app_nil_r in Hstar.
+  exists (St 0 [] [vin] [] h []).
+  assert (Hfin : Machine.step hstate host P (St (si (sizes None e)) (v :: junk) [vin'] [] h' mt') =
+                 SEnd hstate (St (si (sizes None e)) junk [v] [] h' mt')).
+  { unfold Machine.step. cbn [pc]. rewrite Hend. cbn [exec_op ins andb run_op].
+    unfold end_expression, next_ref. cbn [regs bind set_regs frames vals set_vals pc hs tr].
+    rewrite Nat.leb_refl. reflexivity. }
+  destruct (run_from_star hstate host P _ _ Hstar _ Hfin) as (fuel & Hrun).
+  destruct (Hrun 0 0) as (steps & Hr).
+  exists (fuel + 0), steps, (St (si (sizes None e)) junk [v] [] h' mt').
+  repeat split; auto.
+Qed.
+
+(* stages 1-3: no nested expressions, so nothing to label *)
+Lemma frag3_labels : forall e, frag3 e = true -> forall ic lk j ajb jb, lab_okC ic lk e j ajb jb = true.
+Proof.
+  induction e; cbn [frag3]; intros H ic lk j ajb jb; try discriminate; cbn [lab_okC]; auto;
+    repeat (apply andb_prop in H; destruct H as [H ?]);
+    try (destruct (right_first o)); try destruct ic;
+    rewrite ?IHe, ?IHe1, ?IHe2 by assumption; auto.
+Qed.
+
 Theorem stage3_program : forall e vin h n v h' t,
-  frag e = true -> shape_ok e = true -> seq_ok true e = true ->
+  frag3 e = true -> shape_ok e = true -> seq_ok true e = true ->
   eval_prog sym_hash hstate host n e vin h = ODone v (h', t) ->
   exists s0 fuel steps sfin,
     initial hstate (compile_prog sym_hash e) 0 vin h = Some s0 /\
@@ -171,26 +313,7 @@ Theorem stage3_program : forall e vin h n v h' t,
     current_value hstate sfin = Some v /\ hs sfin = h' /\ observable (tr sfin) = t.
 Proof.
   intros e vin h n v h' t Hf Hsh Hsq H.
-  unfold eval_prog in H. destruct n as [|n]; [discriminate|]. rewrite run_body_S in H.
-  destruct (Eval.eval sym_hash hstate host (bodies e) n e vin (h, [])) as [a s1 | rv rs | w | ] eqn:He; try discriminate.
-  2: { exfalso. destruct (no_restart_gen (bodies e) n) as (NR & _). eapply NR; eauto. }
-  injection H as -> ->.
-  destruct (compile_placed e) as (Hp & Hend & Hj0).
-  set (P := compile_prog sym_hash e) in *.
-  assert (Hl : 0 + si (sizes None e) < length (code P)) by (apply nth_error_Some; cbn [plus]; congruence).
-  destruct (sim_eval_gen (bodies e) P n e vin (h, []) v (h', t) He Hf Hsh true Hsq 0 0 1 _ _ [] [] [] [] Hp Hl eq_refl)
-    as (vin' & mt' & Hstar & Ho & _).
-  cbn [fst snd plus] in *.
-  exists (St 0 [] [vin] [] h []).
-  assert (Hfin : Machine.step hstate host P (St (si (sizes None e)) [v] [vin'] [] h' mt') =
-                 SEnd hstate (St (si (sizes None e)) [] [v] [] h' mt')).
-  { unfold Machine.step. cbn [pc]. rewrite Hend. cbn [exec_op ins andb run_op].
-    unfold end_expression, next_ref. cbn [regs bind set_regs frames vals set_vals pc hs tr].
-    rewrite Nat.leb_refl. reflexivity. }
-  destruct (run_from_star hstate host P _ _ Hstar _ Hfin) as (fuel & Hrun).
-  destruct (Hrun 0 0) as (steps & Hr).
-  exists (fuel + 0), steps, (St (si (sizes None e)) [] [v] [] h' mt').
-  repeat split; auto.
+  apply (stage4_program e vin h n v h' t (frag3_frag e Hf) Hsh Hsq (frag3_labels e Hf _ _ _ _ _) H).
 Qed.
 
 End Programs.
